@@ -198,6 +198,7 @@ def _knobs(plan, dims):
         k["clock"], k["pid"], k["host"] = k2["clock"], k2["pid"], k2.get("host")
     if "environ" in dims:
         k["environ"] = k2["environ"]
+        k["cwd"] = k2.get("cwd")
     if "schedule" in dims:
         k["sched_key"] = k2["sched_key"]
     if "buffers" in dims:
